@@ -114,14 +114,18 @@ impl CardIndex {
 
     pub fn as_handle(&self) -> crate::prelude::Handle {
         let function_handle = crate::prelude::Handle::from_u64(self.function as u64);
+        function_handle + self.sub_handle()
+    }
+
+    /// Handle of the position inside the function
+    pub fn sub_handle(&self) -> crate::prelude::Handle {
         let subindices = self.card_index.indices.as_slice();
-        let sub_handle = unsafe {
+        unsafe {
             crate::prelude::Handle::from_bytes(std::slice::from_raw_parts(
                 subindices.as_ptr().cast(),
                 subindices.len() * 4,
             ))
-        };
-        function_handle + sub_handle
+        }
     }
 
     /// pushes a new sub-index to the bottom layer
